@@ -221,8 +221,8 @@ func init() {
 				if f.Go == "(embedded)" || f.JSON == "-" {
 					continue
 				}
-				fmt.Fprintf(&b, "def %s_%s_name : List UInt8 := %s -- %q\n", label, f.Go, leanBytes(f.JSON), f.JSON)
-				fmt.Fprintf(&b, "def %s_%s_omit : Bool := %v\n", label, f.Go, f.Omit != "")
+				fmt.Fprintf(&b, "@[simp] def %s_%s_name : List UInt8 := %s -- %q\n", label, f.Go, leanBytes(f.JSON), f.JSON)
+				fmt.Fprintf(&b, "@[simp] def %s_%s_omit : Bool := %v\n", label, f.Go, f.Omit != "")
 			}
 			b.WriteString("\n")
 		}
